@@ -120,6 +120,13 @@ PROPS = {
         design_ref="DESIGN.md section 4, C16",
         level_text="Calendar-fact part only: through the real Formatter methods into a fixed buffer, for ALL dates (Neri-Schneider callee replaced by its Verus-proved contract as axiomatised memo stub) %j, %U, %W, %u, %w print the value the C library defines with the documented padding, and %z / %:z print sign/HH/MM[/SS] of every offset (sign correct also below one hour). strptime inversion, multi-specifier formats, locale names and RFC 2822 are NOT decided.",
     ),
+    "C17": dict(
+        title="Parsers are total: arbitrary input gives Ok or Err, and Ok values are sane",
+        verus=["tzif", "posix"],
+        kani_quick=["c17_tzif"], kani_thorough=[],
+        design_ref="DESIGN.md section 4, C17",
+        level_text="TZif part only. Proof (loop-free, full domain): the 44-byte TZif header parser and all block-length computations never panic and return exact products or Err on overflow. Bounded stand-ins (bounds stated in evidence.coverage.bounded, never counted as proved): the transition-type and local-time-type block parsers on 2 records. 'A time zone built from accepted data answers every lookup without panicking' is the Verus obligations of the tzif and posix units (tables of any length, every rule) under the well-formedness that the block parsers establish (type indices < number of types, offsets in range). NOT decided: Temporal/friendly/RFC 2822/strptime/offset/RFC 9557/POSIX-TZ text parsers, 'work proportional to input'.",
+    ),
 }
 
 NOT_APPLICABLE = {
